@@ -442,7 +442,7 @@ package godi
 //@   unchecked index#3: results[ret.Index] relies on reflect.Value.Call returning NumOut values and on the analysed return indices
 //@   unchecked index#4: results[descriptor.MultiReturnIndex] relies on the index recorded at registration being an output index of the same constructor
 //@   requires recv: s != nil && s.rootProvider != nil && s.rootProvider.analyzer != nil
-//@   ensures[C15] nil_descriptor: descriptor == nil ==> result0 == nil && typeis(result1, "*ValidationError") && ncalls("scope.setInstance") == 0 && ncalls("scope.setAliasedInstance") == 0
+//@   ensures[C15] nil_descriptor: descriptor == nil ==> result0 == nil && typeis(result1, "*ValidationError") && ncalls("scope.setInstance") == 0 && ncalls("scope.storeOutput") == 0 && ncalls("scope.setAliasedInstance") == 0
 //@   ensures[C15] error_means_no_value: result1 != nil ==> result0 == nil
 //@   ensures[C01,C03] constructor_at_most_once: ncalls("reflection.ConstructorInvoker.Invoke") <= 1 && ncalls("reflection.Analyzer.Analyze") <= 1
 //@   ensures[C01,C04] instance_values_never_invoke: descriptor != nil && descriptor.IsInstance ==> ncalls("reflection.ConstructorInvoker.Invoke") == 0 && ncalls("reflection.Analyzer.Analyze") == 0
@@ -455,68 +455,88 @@ package godi
 //@   ensures[C04] invokes_with_the_analysed_signature: ncalls("reflection.ConstructorInvoker.Invoke") == 1 ==>
 //@        callarg("reflection.ConstructorInvoker.Invoke", 0, 1, "*reflection.ConstructorInfo").Type == ext("reflect.TypeOf", "reflect.Type", ext("(reflect.Value).Interface", "any", descriptor.Constructor))
 //@   ensures[C15,C10] failed_invoke_stores_nothing: ncalls("reflection.ConstructorInvoker.Invoke") == 1 && callret("reflection.ConstructorInvoker.Invoke", 0, 1) != nil ==>
-//@        ncalls("scope.setInstance") == 0 && ncalls("scope.setAliasedInstance") == 0 && result0 == nil && result1 != nil
+//@        ncalls("scope.setInstance") == 0 && ncalls("scope.storeOutput") == 0 && ncalls("scope.setAliasedInstance") == 0 && result0 == nil && result1 != nil
 //@   ensures[C15] failed_analysis_stores_nothing: ncalls("reflection.Analyzer.Analyze") == 1 && callret("reflection.Analyzer.Analyze", 0, 1) != nil ==>
-//@        ncalls("scope.setInstance") == 0 && ncalls("scope.setAliasedInstance") == 0 && ncalls("reflection.ConstructorInvoker.Invoke") == 0 && typeis(result1, "*ReflectionAnalysisError")
+//@        ncalls("scope.setInstance") == 0 && ncalls("scope.storeOutput") == 0 && ncalls("scope.setAliasedInstance") == 0 && ncalls("reflection.ConstructorInvoker.Invoke") == 0 && typeis(result1, "*ReflectionAnalysisError")
 //@        && as(result1, "*ReflectionAnalysisError").Cause == callret("reflection.Analyzer.Analyze", 0, 1)
-//@   ensures[C04,C02,C01] every_output_is_cached_under_its_registration_identity: forall c int :: 0 <= c && c < ncalls("scope.setInstance") ==> idOf(callarg("scope.setInstance", c, 1, "*Descriptor"), callarg("scope.setInstance", c, 2, "instanceKey"))
-//@   ensures[C17,C04] removed_outputs_are_not_stored: forall c int :: 0 <= c && c < ncalls("scope.setInstance") ==> !outputSkipped(old(s.rootProvider), descriptor, callarg("scope.setInstance", c, 1, "*Descriptor"))
+//@   ensures[C04,C02,C01] every_output_is_cached_under_its_registration_identity: forall c int :: 0 <= c && c < ncalls("scope.storeOutput") ==> idOf(callarg("scope.storeOutput", c, 1, "*Descriptor"), callarg("scope.storeOutput", c, 2, "instanceKey"))
+//@   ensures[C17,C04] removed_outputs_are_not_stored: forall c int :: 0 <= c && c < ncalls("scope.storeOutput") ==> !outputSkipped(old(s.rootProvider), descriptor, callarg("scope.storeOutput", c, 1, "*Descriptor"))
 // what is stored for a registration is an instance: a nil output is never stored (it could not be injected, and the provider would not keep it)
-//@   ensures[C01,C04,C15] no_nil_output_is_stored: forall c int :: 0 <= c && c < ncalls("scope.setInstance") ==> callarg("scope.setInstance", c, 3) != nil
-//@   ensures[C10,C01] every_store_is_for_this_scope: (forall i int :: 0 <= i && i < ncalls("scope.setInstance") ==> callarg("scope.setInstance", i, 0) == s)
+//@   ensures[C01,C04,C15] no_nil_output_is_stored: forall c int :: 0 <= c && c < ncalls("scope.storeOutput") ==> callarg("scope.storeOutput", c, 3) != nil
+//@   ensures[C10,C01] every_store_is_for_this_scope: (forall i int :: 0 <= i && i < ncalls("scope.storeOutput") ==> callarg("scope.storeOutput", i, 0) == s)
 //@        && (forall i int :: 0 <= i && i < ncalls("scope.setAliasedInstance") ==> callarg("scope.setAliasedInstance", i, 0) == s) && ncalls("scope.setAliasedInstance") <= 1
-//@   at before return#2 : assert[C15] nil_instance_stores_nothing: ncalls("scope.setInstance") == 0 && ncalls("scope.setAliasedInstance") == 0
-//@   at before return#3 : assert[C01,C10,C04] instance_stored_once: ncalls("scope.setInstance") == 0 && ncalls("scope.setAliasedInstance") == 1 && callarg("scope.setAliasedInstance", 0, 0) == s
+//@   at before return#2 : assert[C15] nil_instance_stores_nothing: ncalls("scope.setInstance") == 0 && ncalls("scope.storeOutput") == 0 && ncalls("scope.setAliasedInstance") == 0
+//@   at before return#3 : assert[C01,C10,C04] instance_stored_once: ncalls("scope.setInstance") == 0 && ncalls("scope.storeOutput") == 0 && ncalls("scope.setAliasedInstance") == 1 && callarg("scope.setAliasedInstance", 0, 0) == s
 //@        && callarg("scope.setAliasedInstance", 0, 1) == descriptor && callarg("scope.setAliasedInstance", 0, 2) == instance && instance == descriptor.Instance
 //@   at before return#5 : assert[C15] panic_exposed: as(box(panicErr), "*reflection.PanicError") == panicErr
-//@   at before return#6 : assert[C15] cause_wrapped: ncalls("scope.setInstance") == 0 && ncalls("scope.setAliasedInstance") == 0
-//@   at before return#7 : assert[C10,C02] void_marker_stored_once: ncalls("scope.setInstance") == 1 && callarg("scope.setInstance", 0, 1) == descriptor
-//@   at before return#8 : assert[C15] no_results_stores_nothing: ncalls("scope.setInstance") == 0 && ncalls("scope.setAliasedInstance") == 0
-//@   at before return#9 : assert[C15] bad_result_object_stores_nothing: ncalls("scope.setInstance") == 0 && ncalls("scope.setAliasedInstance") == 0
-// C10 'every instance ... is closed exactly once ... secondary outputs of multi-output constructors': an object that one invocation
-// returns under two outputs is still one instance: it is handed to the disposal tracking (setInstance) once
-//@   at before call s.setInstance#2 : assert[C10] an_object_is_tracked_once_per_invocation: forall c int :: 0 <= c && c < ncalls("scope.setInstance") ==> callarg("scope.setInstance", c, 3) != value
-//@   at before call s.setInstance#3 : assert[C10] an_object_is_tracked_once_per_invocation_multi_return: forall c int :: 0 <= c && c < ncalls("scope.setInstance") ==> callarg("scope.setInstance", c, 3) != value
+//@   at before return#6 : assert[C15] cause_wrapped: ncalls("scope.setInstance") == 0 && ncalls("scope.storeOutput") == 0 && ncalls("scope.setAliasedInstance") == 0
+//@   at before return#7 : assert[C10,C02] void_marker_stored_once: ncalls("scope.storeOutput") == 0 && ncalls("scope.setInstance") == 1 && callarg("scope.setInstance", 0, 1) == descriptor
+//@   at before return#8 : assert[C15] no_results_stores_nothing: ncalls("scope.setInstance") == 0 && ncalls("scope.storeOutput") == 0 && ncalls("scope.setAliasedInstance") == 0
+//@   at before return#9 : assert[C15] bad_result_object_stores_nothing: ncalls("scope.setInstance") == 0 && ncalls("scope.storeOutput") == 0 && ncalls("scope.setAliasedInstance") == 0
 //@   ghost ownSeen bool
 //@   ghost ownVal any
-//@   at before call s.setInstance#2 : ghost ownVal := ite(regDescriptor == descriptor, value, ownVal)
-//@   at before call s.setInstance#2 : ghost ownSeen := ownSeen || regDescriptor == descriptor
+//@   at before call s.storeOutput#1 : ghost ownVal := ite(regDescriptor == descriptor, value, ownVal)
+//@   at before call s.storeOutput#1 : ghost ownSeen := ownSeen || regDescriptor == descriptor
 // C02/C15 'a failed construction yields no instance', 'a failed resolution is not cached': when the constructor left the requested field nil,
 // nothing of this invocation is stored (the instances the scope already holds for the other fields keep their identity)
-//@   at before return#10 : assert[C02,C15] requested_field_missing_stores_nothing: ncalls("scope.setInstance") == 0 && ncalls("scope.setAliasedInstance") == 0
+//@   at before return#10 : assert[C02,C15] requested_field_missing_stores_nothing: ncalls("scope.setInstance") == 0 && ncalls("scope.storeOutput") == 0 && ncalls("scope.setAliasedInstance") == 0
 //@   at before return#10 : assert[C10] what_was_produced_stays_owned: ncalls("scope.trackUnstored") == 1 && callarg("scope.trackUnstored", 0, 0) == s && callarg("scope.trackUnstored", 0, 1) == descriptor.Lifetime && callarg("scope.trackUnstored", 0, 2) == registrations
 //@   at before return#13 : assert[C04,C01] returned_value_is_what_was_stored_for_this_registration: len(descriptor.outputs) > 0 && ownSeen ==> ownVal == primaryService
-//@   at before return#13 : assert[C10,C01] stored_values_are_result_fields: ncalls("scope.setInstance") <= len(registrations)
-//@        && (forall c int :: 0 <= c && c < ncalls("scope.setInstance") ==> (exists i int :: 0 <= i && i < len(registrations) && callarg("scope.setInstance", c, 3) == registrations[i].Value))
-//@   at before return#14 : assert[C15] nil_output_stores_nothing: ncalls("scope.setInstance") == 0 && ncalls("scope.setAliasedInstance") == 0
+//@   at before return#13 : assert[C10,C01] stored_values_are_result_fields: ncalls("scope.storeOutput") <= len(registrations)
+//@        && (forall c int :: 0 <= c && c < ncalls("scope.storeOutput") ==> (exists i int :: 0 <= i && i < len(registrations) && callarg("scope.storeOutput", c, 3) == registrations[i].Value))
+//@   at before return#14 : assert[C15] nil_output_stores_nothing: ncalls("scope.setInstance") == 0 && ncalls("scope.storeOutput") == 0 && ncalls("scope.setAliasedInstance") == 0
 //@   at before return#16 : assert[C10,C01] every_return_value_stored: forall j int :: 0 <= j && j < len(info.Returns) && !info.Returns[j].IsError && pure("Descriptor.outputForReturn", descriptor, info.Returns[j].Index) != nil && !outputSkipped(s.rootProvider, descriptor, pure("Descriptor.outputForReturn", descriptor, info.Returns[j].Index)) ==>
-//@        (exists c int :: 0 <= c && c < ncalls("scope.setInstance") && callarg("scope.setInstance", c, 3) == ext("(reflect.Value).Interface", "any", results[info.Returns[j].Index]))
+//@        (exists c int :: 0 <= c && c < ncalls("scope.storeOutput") && callarg("scope.storeOutput", c, 3) == ext("(reflect.Value).Interface", "any", results[info.Returns[j].Index]))
 //@   at before return#16 : assert[C10] unstored_outputs_are_still_owned: forall j int :: 0 <= j && j < len(info.Returns) && !info.Returns[j].IsError ==>
-//@        (exists c int :: 0 <= c && c < ncalls("scope.setInstance") && callarg("scope.setInstance", c, 3) == ext("(reflect.Value).Interface", "any", results[info.Returns[j].Index]))
+//@        (exists c int :: 0 <= c && c < ncalls("scope.storeOutput") && callarg("scope.storeOutput", c, 3) == ext("(reflect.Value).Interface", "any", results[info.Returns[j].Index]))
 //@        || (exists c int :: 0 <= c && c < ncalls("scope.trackOnly") && callarg("scope.trackOnly", c, 0) == s && callarg("scope.trackOnly", c, 2) == ext("(reflect.Value).Interface", "any", results[info.Returns[j].Index]))
-//@   at before return#17 : assert[C15] nil_result_stores_nothing: ncalls("scope.setInstance") == 0 && ncalls("scope.setAliasedInstance") == 0
-//@   at before return#18 : assert[C01,C02,C03,C10] single_output_stored_once: ncalls("scope.setInstance") == 0 && ncalls("scope.setAliasedInstance") == 1 && callarg("scope.setAliasedInstance", 0, 0) == s
+//@   at before return#17 : assert[C15] nil_result_stores_nothing: ncalls("scope.setInstance") == 0 && ncalls("scope.storeOutput") == 0 && ncalls("scope.setAliasedInstance") == 0
+//@   at before return#18 : assert[C01,C02,C03,C10] single_output_stored_once: ncalls("scope.setInstance") == 0 && ncalls("scope.storeOutput") == 0 && ncalls("scope.setAliasedInstance") == 1 && callarg("scope.setAliasedInstance", 0, 0) == s
 //@        && callarg("scope.setAliasedInstance", 0, 1) == descriptor && callarg("scope.setAliasedInstance", 0, 2) == instance && instance != nil
 //@   loop 1
-//@     invariant stored_are_instances: forall c int :: 0 <= c && c < ncalls("scope.setInstance") ==> callarg("scope.setInstance", c, 3) != nil
-//@     invariant stored_so_far: ncalls("scope.setInstance") <= idx && (forall c int :: 0 <= c && c < ncalls("scope.setInstance") ==> (exists i int :: 0 <= i && i < idx && callarg("scope.setInstance", c, 3) == registrations[i].Value))
-//@     invariant only_registered_outputs_stored: forall c int :: 0 <= c && c < ncalls("scope.setInstance") ==> !outputSkipped(s.rootProvider, descriptor, callarg("scope.setInstance", c, 1, "*Descriptor"))
-//@     invariant own_scope: forall c int :: 0 <= c && c < ncalls("scope.setInstance") ==> callarg("scope.setInstance", c, 0) == s
-//@     invariant every_output_is_cached_under_its_registration_identity: forall c int :: 0 <= c && c < ncalls("scope.setInstance") ==> idOf(callarg("scope.setInstance", c, 1, "*Descriptor"), callarg("scope.setInstance", c, 2, "instanceKey"))
+//@     invariant nothing_stored_is_forgotten by(nothing_stored_is_forgotten, nothing_is_forgotten): forall c int :: 0 <= c && c < ncalls("scope.storeOutput") ==> (exists i int :: 0 <= i && i < len(stored) && (stored[i] == callarg("scope.storeOutput", c, 3) || pure("sameObject", stored[i], callarg("scope.storeOutput", c, 3))))
+//@     invariant stored_are_instances: forall c int :: 0 <= c && c < ncalls("scope.storeOutput") ==> callarg("scope.storeOutput", c, 3) != nil
+//@     invariant stored_so_far: ncalls("scope.storeOutput") <= idx && (forall c int :: 0 <= c && c < ncalls("scope.storeOutput") ==> (exists i int :: 0 <= i && i < idx && callarg("scope.storeOutput", c, 3) == registrations[i].Value))
+//@     invariant only_registered_outputs_stored: forall c int :: 0 <= c && c < ncalls("scope.storeOutput") ==> !outputSkipped(s.rootProvider, descriptor, callarg("scope.storeOutput", c, 1, "*Descriptor"))
+//@     invariant own_scope: forall c int :: 0 <= c && c < ncalls("scope.storeOutput") ==> callarg("scope.storeOutput", c, 0) == s
+//@     invariant every_output_is_cached_under_its_registration_identity: forall c int :: 0 <= c && c < ncalls("scope.storeOutput") ==> idOf(callarg("scope.storeOutput", c, 1, "*Descriptor"), callarg("scope.storeOutput", c, 2, "instanceKey"))
 //@     invariant returned_value_is_what_was_stored_for_this_registration: len(descriptor.outputs) > 0 && ownSeen ==> ownVal == primaryService
 //@   loop 2
-//@     invariant nothing_stored_before_all_outputs_are_checked: ncalls("scope.setInstance") == 0 && ncalls("scope.setAliasedInstance") == 0 && ncalls("scope.trackOnly") == 0
+//@     invariant nothing_stored_before_all_outputs_are_checked: ncalls("scope.setInstance") == 0 && ncalls("scope.storeOutput") == 0 && ncalls("scope.setAliasedInstance") == 0 && ncalls("scope.trackOnly") == 0
 //@     invariant outputs_checked_so_far: forall j int :: 0 <= j && j < idx && !info.Returns[j].IsError ==> ext("(reflect.Value).Interface", "any", results[info.Returns[j].Index]) != nil
 //@   loop 3
-//@     invariant stored_are_instances: forall c int :: 0 <= c && c < ncalls("scope.setInstance") ==> callarg("scope.setInstance", c, 3) != nil
-//@     invariant own_scope: forall c int :: 0 <= c && c < ncalls("scope.setInstance") ==> callarg("scope.setInstance", c, 0) == s
-//@     invariant every_output_is_cached_under_its_registration_identity: forall c int :: 0 <= c && c < ncalls("scope.setInstance") ==> idOf(callarg("scope.setInstance", c, 1, "*Descriptor"), callarg("scope.setInstance", c, 2, "instanceKey"))
+//@     invariant nothing_stored_is_forgotten by(nothing_stored_is_forgotten, nothing_is_forgotten): forall c int :: 0 <= c && c < ncalls("scope.storeOutput") ==> (exists i int :: 0 <= i && i < len(stored) && (stored[i] == callarg("scope.storeOutput", c, 3) || pure("sameObject", stored[i], callarg("scope.storeOutput", c, 3))))
+//@     invariant stored_are_instances: forall c int :: 0 <= c && c < ncalls("scope.storeOutput") ==> callarg("scope.storeOutput", c, 3) != nil
+//@     invariant own_scope: forall c int :: 0 <= c && c < ncalls("scope.storeOutput") ==> callarg("scope.storeOutput", c, 0) == s
+//@     invariant every_output_is_cached_under_its_registration_identity: forall c int :: 0 <= c && c < ncalls("scope.storeOutput") ==> idOf(callarg("scope.storeOutput", c, 1, "*Descriptor"), callarg("scope.storeOutput", c, 2, "instanceKey"))
 //@     invariant stored_so_far: forall j int :: 0 <= j && j < idx && !info.Returns[j].IsError && pure("Descriptor.outputForReturn", descriptor, info.Returns[j].Index) != nil && !outputSkipped(s.rootProvider, descriptor, pure("Descriptor.outputForReturn", descriptor, info.Returns[j].Index)) ==>
-//@        (exists c int :: 0 <= c && c < ncalls("scope.setInstance") && callarg("scope.setInstance", c, 3) == ext("(reflect.Value).Interface", "any", results[info.Returns[j].Index]))
-//@     invariant only_registered_outputs_stored: forall c int :: 0 <= c && c < ncalls("scope.setInstance") ==> !outputSkipped(s.rootProvider, descriptor, callarg("scope.setInstance", c, 1, "*Descriptor"))
+//@        (exists c int :: 0 <= c && c < ncalls("scope.storeOutput") && callarg("scope.storeOutput", c, 3) == ext("(reflect.Value).Interface", "any", results[info.Returns[j].Index]))
+//@     invariant only_registered_outputs_stored: forall c int :: 0 <= c && c < ncalls("scope.storeOutput") ==> !outputSkipped(s.rootProvider, descriptor, callarg("scope.storeOutput", c, 1, "*Descriptor"))
 //@     invariant unstored_outputs_are_still_owned: forall j int :: 0 <= j && j < idx && !info.Returns[j].IsError ==>
-//@        (exists c int :: 0 <= c && c < ncalls("scope.setInstance") && callarg("scope.setInstance", c, 3) == ext("(reflect.Value).Interface", "any", results[info.Returns[j].Index]))
+//@        (exists c int :: 0 <= c && c < ncalls("scope.storeOutput") && callarg("scope.storeOutput", c, 3) == ext("(reflect.Value).Interface", "any", results[info.Returns[j].Index]))
 //@        || (exists c int :: 0 <= c && c < ncalls("scope.trackOnly") && callarg("scope.trackOnly", c, 0) == s && callarg("scope.trackOnly", c, 2) == ext("(reflect.Value).Interface", "any", results[info.Returns[j].Index]))
+//
+//@ func sameObject
+//@   pure
+// C10 'every instance ... is closed exactly once ... secondary outputs of multi-output constructors': an object that one invocation
+// returns under two outputs is one instance: it is handed to the disposal tracking (setInstance) once, and cached without tracking after that
+//@ func scope.storeOutput
+//@   mode conc
+//@   interferes
+//@   nopanic
+//@   safety[C15,C10]
+//@   requires recv: s != nil && s.rootProvider != nil && descriptor != nil
+//@   ensures[C04,C10] stored_once_under_the_given_identity: ncalls("scope.setInstance") + ncalls("scope.cacheInstance") == 1
+//@        && (ncalls("scope.setInstance") == 1 ==> callarg("scope.setInstance", 0, 0) == s && callarg("scope.setInstance", 0, 1) == descriptor && callarg("scope.setInstance", 0, 2, "instanceKey") == key && callarg("scope.setInstance", 0, 3) == value)
+//@        && (ncalls("scope.cacheInstance") == 1 ==> callarg("scope.cacheInstance", 0, 0) == s && callarg("scope.cacheInstance", 0, 1) == descriptor && callarg("scope.cacheInstance", 0, 2, "instanceKey") == key && callarg("scope.cacheInstance", 0, 3) == value)
+//@   ensures[C10] tracked_exactly_when_not_returned_before: (ncalls("scope.setInstance") == 1) <==> (forall i int :: 0 <= i && i < len(stored) ==> !pure("sameObject", stored[i], value))
+//@   ensures[C10] remembers_what_it_tracked: (ncalls("scope.cacheInstance") == 1 ==> result == stored)
+//@        && (ncalls("scope.setInstance") == 1 ==> len(result) == len(stored) + 1 && result[len(stored)] == value && (forall i int :: 0 <= i && i < len(stored) ==> result[i] == stored[i]))
+//@   ensures[C10] nothing_is_forgotten: ((exists i int :: 0 <= i && i < len(stored) && pure("sameObject", stored[i], value)) && result == stored)
+//@        || (len(result) == len(stored) + 1 && result[len(stored)] == value && (forall i int :: 0 <= i && i < len(stored) ==> result[i] == stored[i]))
+//@   at before call s.setInstance#1 : assert[C10] an_object_is_tracked_once_per_invocation: forall i int :: 0 <= i && i < len(stored) ==> !pure("sameObject", stored[i], value)
+//@   loop 1
+//@     invariant not_returned_so_far: ncalls("scope.setInstance") == 0 && ncalls("scope.cacheInstance") == 0 && (forall i int :: 0 <= i && i < idx ==> !pure("sameObject", stored[i], value))
 //
 //@ func scope.producedFor
 //@   mode conc
